@@ -6,7 +6,8 @@ differences are the exact gradient, hence exact linear propagation; remainder fo
 Correspondence: Theory.predict(pt, uncertainty=True, observable=…) on fresh theories with synthetic
 positive-definite covariances versus the Float model fed with independently evaluated up/down values;
 plus an oracle stream (independent Richardson gradient) for the linear-propagation claim itself and
-the restoration of the parameters.
+the restoration of the parameters; plus an oracle stream "options" for the keyword options of the same entry point
+(orig_conventions=True, observable=…, parameters={…}) on points of every convention class and hand-made DataPoints.
 """
 import math
 
@@ -436,6 +437,267 @@ def loop_stream(rep, rng, quick):
                           dict(free=m['free'], raise_at=str(m['raise_at']), missing_error=m['missing_error']), found_input=False)
 
 
+CFF_NAMES = ('ImH', 'ReH', 'ImHt', 'ReHt', 'ImE', 'ReE')
+POINT_KEYS = ('xB', 't', 'Q2', 'phi', 'FTn', 'varphi', 'varFTn', 'observable', 'frame', 'units', 'process', 'exptype',
+              'in1particle', 'in1charge', 'in1energy', 'in1polarization', 'in1polarizationvector', 'in2particle', 'in2energy',
+              'in2polarization', 'in2polarizationvector')
+
+
+def convention_class(pt):
+    """the class of a point with respect to what DataPoint.orig_conventions looks at: frame, explicit angle or harmonic,
+    harmonic of the target angle, unit of the observable"""
+    units = pt.get('units') or {}
+    unit = units.get(pt.get('observable')) if isinstance(units, dict) else None
+    if 'phi' in pt:
+        ang = 'phi'
+    elif 'FTn' in pt:
+        n = pt.get('FTn')
+        ang = 'FTn=%d' % n if n in (1, 3, -2, 0, -1, 2, -3) else 'FTn=other'
+    else:
+        ang = 'no-angle'
+    var = 'varphi' if 'varphi' in pt else ('varFTn=%d' % pt.get('varFTn') if 'varFTn' in pt else '-')
+    return (pt.get('frame') if 'frame' in pt else None, ang, var, 'pb' if unit == 'pb/GeV^4' else ('nb' if unit and 'GeV' in unit else '1'))
+
+
+def options_stream(rep, rng, quick):
+    """Oracle stream (closed formula on the harness's own central differences of plain evaluations; no model): the keyword
+    options of predict(pt, uncertainty=True, **options) — orig_conventions=True, observable=<another observable / CFF>,
+    parameters={...} and their combinations — on points of every convention class the bundled data have (Trento-frame
+    harmonics FTn in {1, 3, -2, 0, -1, 2, -3} with and without a harmonic varFTn = +-1 of the target angle, BMK-frame
+    harmonics, points at explicit phi, cross sections in nb and in pb) and on hand-made DataPoints (modified copies of bundled
+    points: other frame / harmonic / unit; fresh DataPoint(...) objects, also bare (xB, t, Q2, observable, frame, FTn) ones
+    with a CFF as the observable).
+
+    Expected, whatever the options: (a) the uncertainty is >= 0 and is sqrt(d^T C d) (quadrature sum without a covariance) of
+    the observable actually evaluated, at the parameter values actually used (the theory's, updated with `parameters`); with
+    orig_conventions=True the same, or that times the unit factor |pt.orig_conventions(1)| — the property does not say in
+    which unit the uncertainty is then expressed, but no convention makes it negative; (b) the central value is the plain
+    prediction, sent through pt.orig_conventions when orig_conventions=True; (c) theory.parameters (keys and values) and the
+    point are afterwards what they were before."""
+    import gepard as g
+    n = 48 if quick else 1200
+    worst = [0.0]
+    byclass = {}
+    for p in fixtures.dvcs_points():
+        if 't' in p and 'xB' in p and 'Q2' in p:
+            byclass.setdefault(convention_class(p), []).append(p)
+    classes = sorted(byclass, key=repr)
+    groups = {
+        'trento-harmonic': [k for k in classes if k[0] == 'Trento' and k[1].startswith('FTn') and k[2] == '-'],
+        'trento-varFTn': [k for k in classes if k[0] == 'Trento' and k[2].startswith('varFTn')],
+        'bmk': [k for k in classes if k[0] == 'BMK'],
+        'phi': [k for k in classes if k[1] == 'phi' and k[3] != 'pb'],
+        'pb': [k for k in classes if k[3] == 'pb'],
+    }
+    groups = {k: v for k, v in groups.items() if v}
+    order = sorted(groups) + ['handmade-copy', 'handmade-fresh']
+    rep.coverage['options_stream_convention_classes'] = len(classes)
+
+    def handmade_copy(src):
+        """a copy of a bundled point with another frame / harmonic / unit (the bundled point itself is left alone)"""
+        q = src.copy()
+        what = []
+        for _ in range(rng.randint(1, 2)):
+            r = rng.random()
+            if r < 0.3 and 'frame' in q:
+                q.frame = 'BMK' if q.frame == 'Trento' else 'Trento'
+                what.append('frame=%s' % q.frame)
+            elif r < 0.6 and 'FTn' in q and 'phi' not in q:
+                q.FTn = rng.choice([k for k in (1, 3, -2, 0, -1, 2) if k != q.FTn])
+                what.append('FTn=%d' % q.FTn)
+            elif r < 0.75 and 'varFTn' in q:
+                q.varFTn = -q.varFTn
+                what.append('varFTn=%d' % q.varFTn)
+            elif isinstance(q.get('units'), dict) and q.observable in q.units:
+                new = 'pb/GeV^4' if q.units[q.observable] != 'pb/GeV^4' else 'nb/GeV^4'
+                q.units = dict(q.units)
+                q.units[q.observable] = new
+                what.append('unit=%s' % new)
+        return q, 'copy of a point of dataset %s with %s' % (src.get('id'), ', '.join(what) or 'nothing changed')
+
+    def handmade_fresh(src, bare):
+        """DataPoint(...) made by hand: from the kinematics of a bundled point with the frame / harmonic chosen here, or a
+        bare point (xB, t, Q2, observable, frame, FTn[, varFTn]) that only CFFs can be evaluated on"""
+        frame = rng.choice(['Trento', 'Trento', 'BMK'])
+        if bare:
+            kw = dict(xB=rng.uniform(0.05, 0.3), t=-rng.uniform(0.1, 0.5), Q2=rng.uniform(2.0, 6.0),
+                      observable=rng.choice(['AC', 'ALU', 'BTSA', 'XUU']), frame=frame, FTn=rng.choice([1, 3, -2, 0, -1, 2]))
+            if rng.random() < 0.3:
+                kw['varFTn'] = rng.choice([1, -1])
+            if kw['observable'] == 'XUU' or rng.random() < 0.3:
+                kw['units'] = {kw['observable']: rng.choice(['pb/GeV^4', 'nb/GeV^4']) if kw['observable'] == 'XUU' else '1'}
+            return g.DataPoint(**kw), 'DataPoint(%s)' % ', '.join('%s=%r' % kv for kv in sorted(kw.items()))
+        kw = {k: src[k] for k in POINT_KEYS if k in src}
+        kw['frame'] = frame
+        if 'phi' not in kw and 'FTn' in kw:
+            kw['FTn'] = rng.choice([1, 3, -2, 0, -1, 2])
+        if isinstance(kw.get('units'), dict):
+            kw['units'] = dict(kw['units'])
+        return g.DataPoint(**kw), 'DataPoint(kinematics of a point of dataset %s, frame=%r, FTn=%r)' % (src.get('id'), frame, kw.get('FTn'))
+
+    for c in range(n):
+        group = order[c % len(order)]
+        kind = rng.choice(['adhoc', 'adhoc', 'KM09'])
+        th, cand, _, _ = make_theory(rng, kind)
+        fix_all(rep, th)
+        # ---- the point and the options (drawn again, a few times, when this theory cannot evaluate the observable there:
+        #      neutron points with dipole form factors, target asymmetries with the BMK formulas or on unpolarized points, ...) ----
+        drawn = None
+        for attempt in range(6):
+            bare = False
+            try:
+                if group.startswith('handmade'):
+                    src = rng.choice(byclass[rng.choice([k for k in classes if k[1] != 'no-angle'])])
+                    if group == 'handmade-copy':
+                        pt, origin = handmade_copy(src)
+                    else:
+                        bare = rng.random() < 0.4
+                        pt, origin = handmade_fresh(src, bare)
+                else:
+                    pt = rng.choice(byclass[rng.choice(groups[group])])
+                    origin = 'bundled point of dataset %s' % pt.get('id')
+            except Exception as e:
+                rep.hist('options.redrawn', '%s: DataPoint(...) raises %s' % (group, type(e).__name__))
+                continue
+            opts = {}
+            if rng.random() < 0.75:
+                opts['orig_conventions'] = True
+            if bare or rng.random() < 0.4:
+                others = [o for o in CFF_NAMES if hasattr(th, o)]
+                if not bare:
+                    others += [o for o in ('AC', 'ALU', 'BSA', 'TSA', 'BTSA', 'XUU', 'XLU', 'XUUw', 'XLUw') if o != pt.observable and hasattr(th, o)]
+                opts['observable'] = rng.choice(others)
+            if rng.random() < 0.4 or not opts:
+                opts['parameters'] = None          # filled below, when the free parameters are known
+            obs = opts.get('observable', pt.observable)
+            try:
+                if math.isfinite(float(getattr(th, obs)(pt))):
+                    drawn = True
+                    break
+                rep.hist('options.redrawn', '%s: %s not finite' % (group, obs))
+            except Exception as e:
+                rep.hist('options.redrawn', '%s: %s(%s)' % (group, type(e).__name__, str(e)[:60]))
+        if not drawn:
+            rep.case('options', (group, c, 'no point this theory evaluates'), nontrivial=False)
+            continue
+        cls = convention_class(pt)
+        free = rng.sample(cand, rng.randint(1, min(3, len(cand))))
+        if obs in cand and obs not in free:
+            free[0] = obs                      # a constant CFF as the observable depends on itself only
+        release(rep, th, free)
+        pars = th.free_parameters()
+        rel = rng.choice([1e-3, 3e-3])
+        errs = {p: rel * (abs(th.parameters[p]) + 0.1) * rng.uniform(0.5, 2) for p in pars}
+        th.parameters_errors = dict(errs)
+        cov = None
+        if rng.random() < 0.65:
+            cov = pd_cov(rng, pars, errs)
+            th.covariance = dict(cov)
+        elif rng.random() < 0.5:
+            th.covariance = {}
+        if 'parameters' in opts:
+            over = {}
+            for q in rng.sample(list(cand), rng.randint(1, min(3, len(cand)))):
+                over[q] = th.parameters[q] * rng.uniform(0.8, 1.2) + rng.choice([0.0, 0.05])
+            opts['parameters'] = over
+        before = dict(th.parameters)
+        keys_before = list(th.parameters.keys())
+        base = dict(before)
+        base.update(opts.get('parameters') or {})
+        ptb = dict(pt)
+        fun = getattr(th, obs)
+
+        def f_at(shift, th=th, fun=fun, pt=pt, base=base):
+            saved = dict(th.parameters)
+            try:
+                th.parameters.clear(); th.parameters.update(base)
+                for k, v in shift.items():
+                    th.parameters[k] = base[k] + v
+                return float(fun(pt))
+            finally:
+                th.parameters.clear(); th.parameters.update(saved)
+        shown = {k: (v if isinstance(v, (int, float, str, bool)) or v is None else repr(v)) for k, v in opts.items() if k != 'parameters'}
+        replay = dict(stream='options', group=group, origin=origin, theory=kind, options=shown, parameters_option=opts.get('parameters'),
+                      convention_class=list(cls), dataset=pt.get('id'), point_observable=pt.get('observable'),
+                      point={k: pt.get(k) for k in ('xB', 'Q2', 't', 'phi', 'FTn', 'varphi', 'varFTn', 'frame') if k in pt},
+                      unit=(pt.get('units') or {}).get(pt.get('observable')) if isinstance(pt.get('units'), dict) else None,
+                      free=pars, errors=errs, covariance=None if cov is None else {'%s,%s' % k: v for k, v in cov.items()})
+        optname = '+'.join(sorted(opts))
+        try:
+            f0 = f_at({})
+            d = np.array([(f_at({p: errs[p] / 2.}) - f_at({p: -errs[p] / 2.})) / errs[p] for p in pars])
+            d4 = np.array([(f_at({p: errs[p] / 4.}) - f_at({p: -errs[p] / 4.})) / (errs[p] / 2.) for p in pars])
+            factor = float(pt.orig_conventions(1.0)) if opts.get('orig_conventions') else 1.0
+            want_val = float(pt.orig_conventions(f0)) if opts.get('orig_conventions') else f0
+        except Exception as e:
+            rep.case('options', (group, c, 'observable raises'), nontrivial=False)
+            rep.hist('options.skipped', '%s: %s(%s)' % (group, type(e).__name__, str(e)[:60]))
+            continue
+        gR = (4 * d4 - d) / 3
+        if cov:
+            Cm = np.array([[cov[(a, b)] for b in pars] for a in pars])
+            want = math.sqrt(max(float(d @ Cm @ d), 0.0))
+            wantR = math.sqrt(max(float(gR @ Cm @ gR), 0.0))
+        else:
+            want = math.sqrt(sum((di * errs[p]) ** 2 for di, p in zip(d, pars)))
+            wantR = math.sqrt(sum((gi * errs[p]) ** 2 for gi, p in zip(gR, pars)))
+        curv = max([abs(a - b) / (abs(a) + abs(b) + 1e-300) for a, b in zip(d, d4)] or [0.0])
+        if not (math.isfinite(want) and math.isfinite(f0) and math.isfinite(wantR) and math.isfinite(factor)):
+            rep.case('options', (group, c, 'observable not finite'), nontrivial=False)
+            continue
+        rep.case('options', (group, cls, kind, obs, optname, tuple(pars), f2hex(f0), f2hex(want)), nontrivial=want > 0,
+                 sample=dict(group=group, origin=origin, options=shown, parameters_option=opts.get('parameters'), theory=kind,
+                             convention_class=list(cls), free=pars, conversion_factor=factor))
+        rep.hist('options.group', group)
+        rep.hist('options.keywords', optname)
+        rep.hist('options.conversion', 'none asked' if not opts.get('orig_conventions') else
+                 ('sign flip' if factor == -1 else ('identity' if factor == 1 else 'factor %g' % factor)))
+        key = 'options/%s' % optname
+        try:
+            r = th.predict(pt, uncertainty=True, **opts)
+            val, unc = float(r[0]), float(r[1])
+            if len(r) != 2:
+                raise ValueError('a tuple of %d members' % len(r))
+        except Exception as e:
+            rep.violation(key + '/exception', 'predict(pt, uncertainty=True, %s) on %s raised %s(%s) although the observable %s evaluates '
+                          'there and the formula gives %r' % (shown, origin, type(e).__name__, str(e)[:100], obs, want), replay)
+            th.parameters.clear(); th.parameters.update(before)
+            continue
+        after = dict(th.parameters)
+        if list(th.parameters.keys()) != keys_before or any(f2hex(float(after[k])) != f2hex(float(before[k])) for k in before):
+            changed = sorted(set(after) ^ set(before)) + [k for k in before if k in after and f2hex(float(after[k])) != f2hex(float(before[k]))]
+            rep.violation(key + '/params-not-restored', 'predict(pt, uncertainty=True, %s%s) left theory.parameters changed: %s' % (
+                shown, ', parameters=%r' % opts['parameters'] if 'parameters' in opts else '', changed), replay)
+            th.parameters.clear(); th.parameters.update(before)
+        if dict(pt) != ptb:
+            rep.violation(key + '/point-changed', 'predict(pt, uncertainty=True, %s) changed the point (%s)' % (shown, origin), replay)
+        if f2hex(val) != f2hex(want_val) and not (val == 0.0 and want_val == 0.0):      # (an observable returning the integer 0 has no -0)
+            rep.violation(key + '/central', 'central value %r of predict(pt, uncertainty=True, %s) on %s differs from %s %r' % (
+                val, shown, origin, 'pt.orig_conventions(plain prediction) =' if opts.get('orig_conventions') else 'the plain prediction', want_val),
+                dict(replay, code=val, expected=want_val))
+        scale = 1e-12 * abs(f0)
+        accepted = sorted({1.0, abs(factor)})
+        err = min(relerr(unc, k * want, k * scale) for k in accepted)
+        if want > 0:
+            worst[0] = max(worst[0], err)
+        if unc < 0 or not math.isfinite(unc):
+            rep.violation(key + '/negative', 'predict(pt, uncertainty=True, %s) on %s (class %s, pt.orig_conventions(1) = %r): the uncertainty '
+                          'of %s with free=%s is %r — an uncertainty is never negative; sqrt(d^T C d) with the %s is %r' % (
+                              shown, origin, cls, factor, obs, pars, unc, 'covariance' if cov else 'parameter errors (no covariance)', want),
+                          dict(replay, code=unc, formula=want, richardson=wantR, conversion_factor=factor), found_input=True)
+        elif err > 1e-6:
+            found = curv < 5e-3 and min(relerr(unc, k * wantR, k * scale) for k in accepted) > 2e-2
+            rep.violation(key + '/value', 'predict(pt, uncertainty=True, %s) on %s (class %s): uncertainty of %s with free=%s is %r, but '
+                          'sqrt(d^T C d) with the %s is %r (times the unit factor %r at most; independent Richardson gradient: %r, relative '
+                          'curvature %.1e)' % (shown, origin, cls, obs, pars, unc, 'covariance' if cov else 'parameter errors (no covariance)',
+                                               want, abs(factor), wantR, curv),
+                          dict(replay, code=unc, formula=want, richardson=wantR, conversion_factor=factor), found_input=found)
+    rep.coverage['options_stream_worst_relative_difference'] = float('%.3g' % worst[0])
+    rep.notes.append('stream "options" is an oracle stream (formula on the harness\'s own central differences, tolerance 1e-6; no model): '
+                     'predict(uncertainty=True) with orig_conventions / observable / parameters on points of every convention class '
+                     '(with orig_conventions the uncertainty may be in either unit, never negative)')
+
+
 def run(rep):
     import gepard as g
     rng = rep.rng
@@ -638,6 +900,8 @@ def run(rep):
                           dict(kind=m['kind'], obs=m['obs'], free=pars, mode=m['mode']))
     rep.notes.append('oracle stream (independent Richardson gradient, tolerance 2e-2 for relative curvature < 5e-3) supports the '
                      'part of the property the theorems state only under the local-quadratic hypothesis')
+    # last, so that the random sequence of the streams above is what it was before this stream existed
+    options_stream(rep, rng, quick)
     if not ok and not rep.violations:
         rep.violation('lean', 'Lean side of C18 no longer checks: ' + why, dict(reason=why), found_input=False)
     rep.assumptions += ['the observable enters the model as the table of its values at the 2n+1 evaluation points, obtained by '
